@@ -60,7 +60,7 @@ func (s *Stats) Record(hash string, nontrivial bool, classes []string, sample an
 	for _, c := range classes {
 		s.Classes[c]++
 	}
-	if nontrivial && len(s.Nontrivial) >= 400000 {
+	if nontrivial && len(s.Nontrivial) >= 120000 {
 		s.Counters["nontrivial-hashes-capped"]++
 	} else if nontrivial {
 		if _, seen := s.Nontrivial[hash]; !seen {
